@@ -116,6 +116,12 @@ type Oracle interface {
 }
 
 // Summary replaces a callee by its specification.
+// OpOracle is an Oracle that wants to know with which operator the pair is compared (an atom tabulated as
+// equal / not equal must not be used to decide an ordering).
+type OpOracle interface {
+	CmpOp(op token.Token, a, b Val) (int, bool)
+}
+
 type Summary func(ev *Evaluator, args []Val) (Val, error)
 
 type Undecided struct {
@@ -954,7 +960,13 @@ func (ev *Evaluator) binop(op token.Token, x, y Val, pos token.Pos) (Val, error)
 				}
 			}
 		}
-		ord, ok := ev.Oracle.Cmp(x, y)
+		var ord int
+		var ok bool
+		if oo, isOp := ev.Oracle.(OpOracle); isOp {
+			ord, ok = oo.CmpOp(op, x, y)
+		} else {
+			ord, ok = ev.Oracle.Cmp(x, y)
+		}
 		ev.Asked = append(ev.Asked, fmt.Sprintf("%v %s %v", x, op, y))
 		if !ok {
 			return nil, &Undecided{pos, fmt.Sprintf("oracle cannot order %v %s %v", x, op, y)}
